@@ -40,3 +40,4 @@ int main(void) {
   fflush(stdout);
   return vfail_count ? 10 : 0;
 }
+__attribute__((weak)) void verif_sstream_str_used(void) {}
